@@ -1308,6 +1308,15 @@ impl Sessions {
         Ok((value, to_persist))
     }
 
+    /// Undo the most recent [`Sessions::reserve_global_group_data_ctr`] whose
+    /// boundary could not be made durable: `value` was not (and must not be)
+    /// sent, and the stored boundary still is the old one - so go back to
+    /// "nothing covered", which makes the next reservation hand out `value`
+    /// again together with a boundary to persist.
+    pub(crate) fn unreserve_global_group_data_ctr(&mut self, value: u32) {
+        self.set_global_group_data_ctr(value);
+    }
+
     /// Get or create a TX group session for sending group data messages to
     /// `(fab_idx, group_id)`.
     ///
